@@ -9,7 +9,9 @@ Mirrors (code as it is after `fix: cutoff growth always leaves a free slot`, 048
   `mutate_subsection` (a sweep over `0..cutoff` makes the slot array at least `cutoff` long);
 * a diagonal sweep only rewrites slots `p < cutoff` (insert into an empty slot / remove / keep),
   every other update (cluster, loop, RVB, free-spin refresh) edits operators in place;
-* the tempering equalisation `set_op_cutoff(max_cutoff)` on every replica before swaps.
+* the tempering equalisation `set_op_cutoff(max_cutoff)` on every replica before swaps;
+* the raw public `swap_manager_and_state` (both samplers; raises both cutoffs to the maximum after
+  exchanging containers, 074d32a) and the cutoff hand-over of `IntoQmc::into_qmc`.
 
 What a sweep decides in each slot (weights, random draws) is irrelevant for C12 and is an
 arbitrary function `d : slot → occupied? → occupied?`; the theorems hold for every `d`.
@@ -92,6 +94,39 @@ def trace (ds : List (Nat → Bool → Bool)) (s : CSampler) : List CSampler :=
 free slots the acceptance ratios need) -/
 def Inv (s : CSampler) : Prop := s.len ≤ s.cutoff
 end CSampler
+
+/-- `swap_manager_and_state` of both samplers (after `fix:` 074d32a): the containers are
+exchanged, then **both** samplers call their own `set_cutoff(max(self.cutoff, other.cutoff))`
+(sampler field overwritten *and* received container padded). -/
+def swapSamplers (a b : CSampler) : CSampler × CSampler :=
+  let m := max a.cutoff b.cutoff
+  (CSampler.setCutoff m { cutoff := a.cutoff, occ := b.occ },
+   CSampler.setCutoff m { cutoff := b.cutoff, occ := a.occ })
+
+/-- `IntoQmc::into_qmc` as far as C12 is concerned: `Qmc::new_with_state` (cutoff = nvars, empty
+container), `set_manager(ising container)`, then the **sampler's** `set_cutoff(ising cutoff)`. -/
+def convertSampler (nvars : Nat) (s : CSampler) : CSampler :=
+  CSampler.setCutoff s.cutoff { cutoff := nvars, occ := s.occ }
+
+/-- public calls on a pair of samplers (histories mixing time steps, raw swaps, conversions) -/
+inductive PairAction where
+  | stepA (d : Nat → Bool → Bool)
+  | stepB (d : Nat → Bool → Bool)
+  | swap
+  | raiseA (c : Nat)            -- `increase_cutoff_to(c)` / `set_cutoff(c)` with `c ≥ cutoff`
+  | convertA (nvars : Nat)      -- `a := a.into_qmc()`
+  | freshB (c : Nat)            -- partner replaced by a freshly built Ising sampler with cutoff `c`
+
+def applyPair (p : CSampler × CSampler) : PairAction → CSampler × CSampler
+  | .stepA d => (CSampler.timestep d p.1, p.2)
+  | .stepB d => (p.1, CSampler.timestep d p.2)
+  | .swap => swapSamplers p.1 p.2
+  | .raiseA c => (CSampler.setCutoff (max p.1.cutoff c) p.1, p.2)
+  | .convertA nv => (convertSampler nv p.1, p.2)
+  | .freshB c => (p.1, CSampler.newIsing c)
+
+def runPair (acts : List PairAction) (p : CSampler × CSampler) : CSampler × CSampler :=
+  acts.foldl applyPair p
 
 /-- maximum of a list of cutoffs (0 for the empty list) -/
 def maxCutoff (cs : List Nat) : Nat := cs.foldl max 0
